@@ -432,7 +432,7 @@ REVIEWED_PANICS = {
     ("crypto::aggsig::AggregateSignature::verify_bytes::{closure#0}", "index", "[PublicKey][usize]"): (1, "signers() yields indices < bitmask.len() == pks.len() (length check dominates, O9.7)"),
     ("crypto::aggsig::AggregateSignature::verify_bytes::{closure#0}", "assert", "BoundsCheck"): (1, "signers() yields indices < bitmask.len() == pks.len() (length check dominates, O9.7)"),
     ("serialize", "unwrap", "Result::expect"): (1, "wincode serialisation of an in-memory VotePayload into a Vec: no size limit or I/O involved, cannot fail on message content"),
-    ("types::fraction::Fraction::is_met", "panic", "panicking::panic_fmt"): (1, "debug assertion total_stake != 0: epoch configuration (sum of validator stakes), not message content"),
+    ("types::fraction::Fraction::is_met", "panic", "panicking::panic"): (1, "debug assertion total_stake != 0: epoch configuration (sum of validator stakes), not message content"),
 }
 
 
@@ -441,27 +441,9 @@ def ob_no_panic(run, oid):
     o = run.ob(oid, "no unreviewed panic site is reachable from ValidatedVote::try_new / ValidatedCert::try_new",
                "every alteration must be rejected with an error, never a panic (a panic in the message loop stops the node)", floor=2)
     roots = [VV + "::try_new", VC + "::try_new"]
-    U = prog.reachable_from(roots)
-    run.notes.append("O9.8 examined %d bodies reachable from the two try_new" % len(U))
-    counts = {}
-    for d in sorted(U):
-        b = prog.bodies[d]
-        if b.generated:
-            continue
-        for s in panics.sites(b, prog, include_overflow=False):
-            counts.setdefault((d.replace(A, ""), s.kind, s.what), []).append(s)
-    for k, ss in sorted(counts.items()):
-        rev = REVIEWED_PANICS.get(k)
-        if rev and len(ss) <= rev[0]:
-            o.ok("%s|%s|%s" % k, "reviewed: " + rev[1], ss[0].span)
-        else:
-            for s in ss[(rev[0] if rev else 0):]:
-                chain = prog.call_chain(roots, s.body.defpath)
-                o.fail("%s|%s|%s|%d" % (k[0], k[1], k[2], s.ordinal), "panic site (%s %s %r) reachable from vote/cert validation" % (s.kind, s.what, s.msg), s.span,
-                       {"call_chain": [fshort(x) for x in chain] if chain else None})
-    if not counts:
-        o.ok("none", "no panic sites at all under the two try_new", "")
-    o.ok("closure-size", "%d bodies examined" % len(U), "", nontrivial=False)
+    nb, ns = panics.review(o, prog, roots, REVIEWED_PANICS, fshort, include_overflow=False)
+    run.notes.append("O9.8 examined %d bodies reachable from the two try_new, %d panic sites" % (nb, ns))
+    o.ok("closure-size", "%d bodies examined" % nb, "", nontrivial=False)
 
 
 def ob_before_lock(run, oid):
